@@ -32,7 +32,7 @@ Lemma inv_kill X W D T G s e :
 Proof.
   intros Hi Hae Hf Hr Hlog Hvar Hinn Hcur Hdev Hdc Hio.
   destruct Hi as [Aheap Amem1 Amem2 Aown Afresh Atag Adead Ainner Aitag Ainj Aiown Agin Apres Adev Abuf Acur Acurinj
-                  Ahand Avars Avinj AT ATnd Alive Alognd Alog AD].
+                  Ahand Avars Avinj AT ATnd Alive Alognd Alog AD Acs].
   assert (Hal : forall x, upd (alive s) e false x = true -> alive s x = true /\ x <> e).
   { intros x. unfold upd. destruct (Nat.eqb_spec x e); [discriminate|tauto]. }
   assert (Hal2 : forall x, x <> e -> upd (alive s) e false x = alive s x) by (intros; now apply upd_other).
@@ -88,6 +88,7 @@ Proof.
       * apply in_remove in Hd. tauto.
   - intros o Hin. apply in_remove in Hin as [Hin Hne]. destruct (AD o Hin) as [A1 A2]. split; [|exact A2].
     now rewrite Hal2.
+  - intros d st Ha. apply Hal in Ha as [Ha _]. now apply Acs.
 Qed.
 
 Lemma inv_log X W D T G s o :
@@ -99,7 +100,7 @@ Proof.
   { intros H. apply (i_log _ _ _ _ _ _ _ Hi) in H as [_ [H|H]]; [congruence|contradiction]. }
   split; [exact Hnl|].
   destruct Hi as [Aheap Amem1 Amem2 Aown Afresh Atag Adead Ainner Aitag Ainj Aiown Agin Apres Adev Abuf Acur Acurinj
-                  Ahand Avars Avinj AT ATnd Alive Alognd Alog AD].
+                  Ahand Avars Avinj AT ATnd Alive Alognd Alog AD Acs].
   constructor; simpl_st; try assumption.
   - destruct Aheap. constructor; simpl_st; assumption.
   - now constructor.
@@ -114,12 +115,13 @@ Lemma inv_unW_dead X W D T G s o :
 Proof.
   intros Hi Hd.
   destruct Hi as [Aheap Amem1 Amem2 Aown Afresh Atag Adead Ainner Aitag Ainj Aiown Agin Apres Adev Abuf Acur Acurinj
-                  Ahand Avars Avinj AT ATnd Alive Alognd Alog AD].
+                  Ahand Avars Avinj AT ATnd Alive Alognd Alog AD Acs].
   constructor; try assumption.
   - intros p b Ha Hw. apply Ainner; [exact Ha|]. intros [<-|H]; [congruence|contradiction].
   - intros b Ha Ht Hg Hw. apply Aiown; try assumption. intros [<-|H]; [congruence|contradiction].
   - intros d Ha Ht Hw. apply Acur; try assumption. intros [<-|H]; [congruence|contradiction].
   - intros x k Ha Ht Hw. apply Alive; try assumption. intros [<-|H]; [congruence|contradiction].
+  - intros d st Ha Ht Hw. apply Acs; try assumption. intros [<-|H]; [congruence|contradiction].
 Qed.
 
 Lemma inv_unX_dead X W D T G s e :
@@ -127,7 +129,7 @@ Lemma inv_unX_dead X W D T G s e :
 Proof.
   intros Hi Hd [k Hk].
   destruct Hi as [Aheap Amem1 Amem2 Aown Afresh Atag Adead Ainner Aitag Ainj Aiown Agin Apres Adev Abuf Acur Acurinj
-                  Ahand Avars Avinj AT ATnd Alive Alognd Alog AD].
+                  Ahand Avars Avinj AT ATnd Alive Alognd Alog AD Acs].
   constructor; try assumption.
   - intros x o sl Hin. destruct (Amem1 x o sl Hin) as [H1 H2]. split; [exact H1|]. intros H. apply H2. now right.
   - intros x o sl Ha Hx. apply Amem2; [exact Ha|]. intros [<-|H]; [congruence|contradiction].
@@ -148,7 +150,7 @@ Proof.
   { destruct (Nat.lt_ge_cases m (nxt s)) as [H|H]; [exact H|].
     destruct (i_fresh _ _ _ _ _ _ _ Hi m H) as (_ & Hf & _). congruence. }
   destruct Hi as [Aheap Amem1 Amem2 Aown Afresh Atag Adead Ainner Aitag Ainj Aiown Agin Apres Adev Abuf Acur Acurinj
-                  Ahand Avars Avinj AT ATnd Alive Alognd Alog AD].
+                  Ahand Avars Avinj AT ATnd Alive Alognd Alog AD Acs].
   constructor; simpl_st; try assumption.
   - destruct Aheap. constructor; simpl_st; assumption.
   - intros e o sl Hin. destruct (Amem1 e o sl Hin) as [H1 H2]. split; [|exact H2].
@@ -172,7 +174,7 @@ Proof.
   intros Hi H1 H2 H3 H4 H5 H6 H7 H8 H9 H10 H11 H12 H13 H14 H15 H16 Hps.
   assert (Hh : forall e, home s' e = home s e) by (intros e; unfold home; now rewrite H2, H6, H9, H10, H14).
   destruct Hi as [Aheap Amem1 Amem2 Aown Afresh Atag Adead Ainner Aitag Ainj Aiown Agin Apres Adev Abuf Acur Acurinj
-                  Ahand Avars Avinj AT ATnd Alive Alognd Alog AD].
+                  Ahand Avars Avinj AT ATnd Alive Alognd Alog AD Acs].
   constructor; rewrite ?H1, ?H2, ?H3, ?H6, ?H8, ?H9, ?H10, ?H11, ?H12, ?H13, ?H14, ?H15, ?H16; try assumption.
   - destruct Aheap as [B1 B2 B3 B4 B5 B6]. constructor; rewrite ?H3, ?H4, ?H5, ?H7; assumption.
   - intros e o sl. rewrite Hh. apply Amem1.
